@@ -174,7 +174,7 @@ def histories(ctx, prefix, runs, ops=8, parts=None):
         _selftests(ctx, rs)
     ctx.cov["traces_validated_against_impl"] += len(rs)
     ctx.cov["proxy_system_histories"] = {k: s.get(k, 0) for k in (
-        "runs", "events", "acks", "fails", "searches", "partial", "errors", "faults", "lost", "restarts")}
+        "runs", "events", "acks", "fails", "searches", "partial", "errors", "faults", "lost", "restarts", "redeliveries", "dup_deliveries", "two_shards")}
     return len(rs), s.get("events", 0)
 
 
@@ -251,7 +251,7 @@ def _selftest(ctx, tr, mutate):
 def run_all(ctx, prefix, runs=None, ops=8):
     """design and histories side by side (both are independent)"""
     if runs is None:
-        runs = 48 if ctx.quick() else 1500
+        runs = 120 if ctx.quick() else 2500
     with concurrent.futures.ThreadPoolExecutor(max_workers=2) as ex:
         fd = ex.submit(design, ctx)
         fh = ex.submit(histories, ctx, prefix, runs, ops)
